@@ -150,6 +150,13 @@ func UnmarshalEd25519PrivateKey(data []byte) (PrivKey, error) {
 		)
 	}
 
+	// The public half must be the public key of the seed: a key whose halves
+	// disagree signs messages that verify under no public key at all.
+	derived := ed25519.NewKeyFromSeed(data[:ed25519.SeedSize])
+	if subtle.ConstantTimeCompare(derived[ed25519.SeedSize:], data[ed25519.SeedSize:]) == 0 {
+		return nil, errors.New("ed25519 private key: public half does not match the seed")
+	}
+
 	return &Ed25519PrivateKey{
 		k: ed25519.PrivateKey(data),
 	}, nil
